@@ -156,3 +156,40 @@ def c20(ctx):
                     assumptions=["TLC/SANY and the JVM", "PmtTypes transcribes the code assignments listed in the property statement",
                                  "maximum_bitrate inputs are below 2^21 and Dolby Vision levels below 32 (the property's stated ranges)",
                                  "the PMT sections used for the by-PID query are built by the harness (their parsing is C06's subject)"])
+
+
+# ---------------------------------------------------------------- C16
+
+@prop("C16", "Trace_C16")
+def c16(ctx):
+    thorough = ctx.tier == "thorough"
+    V.mc(ctx, "MC_C16", cfg="MC_C16_thorough.cfg" if thorough else "MC_C16.cfg")
+    summ = V.gen_traces(ctx, shards=12)
+    V.validate(ctx, "Trace_C16", summ, V.default_sig, par=12)
+    return V.finish(ctx, "model_checking",
+                    rule="MC: the read/unread/peek loop as a TLA+ state machine refines the declarative First(s) on every stream of length <= 6 (8 thorough) over {0x47,0x00,0x10,0x05,0x1F}. "
+                         "B3: the real packet.Sync on every stream of length <= 6 (8) over the same alphabet (bufio 16-byte buffer and a minimal PeekScanner alternately) plus random long streams "
+                         "dense in false sync bytes / reserved PIDs / headers cut by EOF through four reader kinds; TLC checks offset = First(s), bytes left in the reader = suffix from First(s), "
+                         "not-found error iff no plausible header. class = (reader, outcome, number of sync bytes, length bucket)",
+                    trace_module="Trace_C16", sigfn=V.default_sig,
+                    assumptions=["TLC/SANY and the JVM", "Go's bufio.Reader and the harness's slice PeekScanner implement Peek/ReadByte/UnreadByte as documented",
+                                 "the reader position after a not-found result is left unspecified (the property does not state it)"])
+
+
+# ---------------------------------------------------------------- C17
+
+@prop("C17", "Trace_C17")
+def c17(ctx):
+    thorough = ctx.tier == "thorough"
+    V.mc(ctx, "MC_C17", cfg="MC_C17_thorough.cfg" if thorough else "MC_C17.cfg")
+    summ = V.gen_traces(ctx, shards=8)
+    V.validate(ctx, "Trace_C17", summ, V.default_sig)
+    return V.finish(ctx, "model_checking",
+                    rule="MC: all call histories up to depth 4 (5 thorough) over packets (PUSI x has-payload x 4 payloads), Reset, and 12 threshold/failing predicates; "
+                         "invariants restate C17 from the recorded history. B3: random histories (2..10 calls) of WritePacket/Reset on a real accumulator with 188-byte packets "
+                         "(payload-only, AF of every size incl. 183 = empty payload, AF-only), threshold/failing predicates; after every call the error class, Bytes() and Packets() "
+                         "(after scribbling over the input packet and over previously returned slices) are validated by TLC as a step of Accumulator. class = (PUSI, AFC, result, packets held)",
+                    trace_module="Trace_C17", sigfn=V.default_sig,
+                    assumptions=["TLC/SANY and the JVM", "whether a packet rejected for lack of payload is listed by Packets() is left open (the property does not fix it)",
+                                 "the library returns the same error for 'just completed' and 'already complete'; the harness tells them apart by the call order it issued",
+                                 "payload extraction of well-formed packets per ISO 13818-1 (TsHeader + adaptation_field_length)"])
